@@ -17,18 +17,26 @@ import (
 	pl "verifharness/planlib"
 )
 
-func plansOf(g pl.Graph) Sx {
+// styled is a graph with what the fabricated commits are made of: the hash style and the zone mode (r4.go).
+type styled struct {
+	pl.Graph
+	Hst, Tzm int
+}
+
+func plain(g pl.Graph) styled { return styled{Graph: g} }
+
+func plansOf(g styled) Sx {
 	return pl.Guard("plans", func() Sx {
-		cs, id := g.Commits(false)
+		cs, id := commitsOf(g.Graph, g.Hst, g.Tzm, false)
 		p1 := verifapi.PrepareRunPlan(cs, 0)
-		cs2, _ := g.Commits(true)
+		cs2, _ := commitsOf(g.Graph, g.Hst, g.Tzm, true)
 		p2 := verifapi.PrepareRunPlan(cs2, 0)
 		return T("plans", pl.PlanSx("plan", p1, id), pl.PlanSx("plan", p2, id))
 	})
 }
 
-func caseFields(kind string, g pl.Graph, obs ...Sx) []Sx {
-	fs := []Sx{T("kind", A(kind)), T("nt", B(g.NonTrivial()))}
+func caseFields(kind string, g styled, obs ...Sx) []Sx {
+	fs := []Sx{T("kind", A(kind)), T("nt", B(g.NonTrivial())), T("hst", I(g.Hst)), T("tzm", I(g.Tzm))}
 	fs = append(fs, g.Fields()...)
 	fs = append(fs, T("obs", obs...))
 	return fs
@@ -37,7 +45,7 @@ func caseFields(kind string, g pl.Graph, obs ...Sx) []Sx {
 // sweep plans every DAG on n commits selected by keep under every hash order selected by takeOrder.
 // With dedup, one case is written per (graph, distinct plan) with the number of plannings that produced
 // it (the ranks are those of the first hash order that did).
-func sweep(c *Config, kind string, n int, keep func(parents [][]int) bool, takeOrder func(k int) bool, dedup bool, workers int) {
+func sweep(c *Config, kind string, n int, keep func(parents [][]int) bool, takeOrder func(k int) bool, dedup bool, workers, rep int) {
 	perms := pl.Perms(n)
 	total := pl.NumMasks(n)
 	const batch = 512
@@ -65,8 +73,9 @@ func sweep(c *Config, kind string, n int, keep func(parents [][]int) bool, takeO
 						if !takeOrder(k) {
 							continue
 						}
-						g := pl.FromParents(parents, ranks)
-						g.Times = pl.SweepTimes(n, m, k)
+						g := plain(pl.FromParents(parents, ranks))
+						g.Times = sweepTimes(n, m, k+rep)
+						g.Hst, g.Tzm = sweepStyle(m, k, rep)
 						obs := plansOf(g)
 						if !dedup {
 							lines = append(lines, caseFields(kind, g, obs))
@@ -112,16 +121,18 @@ type scaleSpec struct {
 	shape              string
 	size, hmode, tmode int
 	gseed              int64
+	hst                int // hash style (r4.go)
 }
 
 func scaleLine(sp scaleSpec) []Sx {
 	g := pl.ScaleGraph(sp.shape, sp.size, sp.hmode, sp.tmode, sp.gseed)
 	obs := pl.Guard("plans", func() Sx {
-		cs, id := g.Commits(false)
+		cs, id := commitsOf(g, sp.hst, 0, false)
 		return T("plans", pl.PlanSx("plan", verifapi.PrepareRunPlan(cs, 0), id))
 	})
 	fs := []Sx{T("kind", A("scale-"+sp.shape)), T("nt", B(true))}
 	fs = append(fs, pl.ScaleFields(sp.shape, sp.size, sp.hmode, sp.tmode, sp.gseed, g)...)
+	fs = append(fs, T("hst", I(sp.hst)))
 	return append(fs, T("obs", obs))
 }
 
@@ -161,7 +172,7 @@ func scaleSpecs(c *Config) []scaleSpec {
 	r := c.Rng
 	var specs []scaleSpec
 	mk := func(shape string, size int) {
-		specs = append(specs, scaleSpec{shape, size, r.Intn(3), r.Intn(pl.NumTimeModes), int64(r.Intn(1 << 30))})
+		specs = append(specs, scaleSpec{shape, size, r.Intn(3), r.Intn(pl.NumTimeModes), int64(r.Intn(1 << 30)), hashStyles[len(specs)%len(hashStyles)]})
 	}
 	for _, sh := range pl.ScaleShapes {
 		mk(sh, 1000+r.Intn(25))
@@ -173,6 +184,10 @@ func scaleSpecs(c *Config) []scaleSpec {
 	// the 16-bit boundary of a branch index, and the 8-bit / 15-bit ones
 	for _, n := range []int{255, 256, 257, 32767, 32768, 32769, 65535, 65536, 65537} {
 		mk("star", n)
+	}
+	// decimal widths of branch indexes and item counts (R4-5)
+	for _, n := range []int{9, 10, 11, 99, 100, 101, 999, 1000, 1001} {
+		mk("starmerge", n)
 	}
 	mk("comb", 65536+1+r.Intn(3000))
 	if c.Thorough() {
@@ -197,11 +212,17 @@ func main() {
 	defer c.Close()
 	if c.Replay != "" {
 		for _, cs := range c.ReplayCases() {
+			get := func(name string) int {
+				if f, ok := cs.Field(name); ok {
+					return f.Args()[0].Int()
+				}
+				return 0
+			}
 			if shape, size, hmode, tmode, gseed, ok := pl.ParseScale(cs); ok {
-				c.Emit(scaleLine(scaleSpec{shape, size, hmode, tmode, gseed})...)
+				c.Emit(scaleLine(scaleSpec{shape, size, hmode, tmode, gseed, get("hst")})...)
 				continue
 			}
-			g := pl.ParseGraph(cs)
+			g := styled{pl.ParseGraph(cs), get("hst"), get("tzm")}
 			c.Emit(caseFields("replay", g, plansOf(g))...)
 		}
 		return
@@ -223,11 +244,17 @@ func main() {
 	conn := func(p [][]int) bool { return pl.Connected(p) }
 	disc := func(p [][]int) bool { return !pl.Connected(p) }
 	// exhaustive: every DAG on <= 5 commits (connected and not) x every hash order
+	// (<= 4 commits have too few hash orders to meet every hash style / timestamp mode: they are swept several times)
+	reps := map[int]int{1: 16, 2: 16, 3: 8, 4: 4, 5: 1}
 	for n := 1; n <= 5; n++ {
-		sweep(c, fmt.Sprintf("ex%d", n), n, conn, all, false, workers)
+		for rep := 0; rep < reps[n]; rep++ {
+			sweep(c, fmt.Sprintf("ex%d", n), n, conn, all, false, workers, rep)
+		}
 	}
 	for n := 2; n <= 5; n++ {
-		sweep(c, fmt.Sprintf("exdisc%d", n), n, disc, all, false, workers)
+		for rep := 0; rep < reps[n]; rep++ {
+			sweep(c, fmt.Sprintf("exdisc%d", n), n, disc, all, false, workers, rep)
+		}
 	}
 	if c.Tier == "thorough" { // not in the search tier: the sweep does not scale down
 		off := int(c.Seed % 6)
@@ -238,11 +265,16 @@ func main() {
 		if *full {
 			take = all
 		}
-		sweep(c, "ex6", 6, conn, take, true, workers)
+		sweep(c, "ex6", 6, conn, take, true, workers, 0)
 	}
-	times := func(g pl.Graph) pl.Graph {
-		g.Times = pl.TimesFor(c.Rng.Intn(pl.NumTimeModes), g.N, c.Rng)
-		return g
+	// every sampled / random case draws a timestamp mode, a hash style (the plain one in a quarter) and a zone mode
+	times := func(g pl.Graph) styled {
+		g.Times = timesFor(c.Rng.Intn(numTimeModes), g.N, c.Rng)
+		s := styled{Graph: g, Tzm: c.Rng.Intn(2)}
+		if c.Rng.Intn(4) != 0 {
+			s.Hst = hashStyles[c.Rng.Intn(len(hashStyles))]
+		}
+		return s
 	}
 	// samples of 6- and 7-commit DAGs with random hash orders
 	for i := c.Count(4000, 40000); i > 0; i-- {
@@ -263,8 +295,9 @@ func main() {
 	// forks of more than eight branches and octopus merges of more than eight parents
 	for i := c.Count(160, 6000); i > 0; i-- {
 		ps := pl.WideGraph(c.Rng, 18)
-		g := times(pl.FromParents(ps, c.Rng.Perm(len(ps))))
-		g.Order = c.Rng.Perm(g.N)
+		g0 := pl.FromParents(ps, c.Rng.Perm(len(ps)))
+		g0.Order = c.Rng.Perm(g0.N)
+		g := times(g0)
 		c.Emit(caseFields("wide", g, plansOf(g))...)
 	}
 	// fast-forward (redundant) edges whose alternative path is long: 2 .. 140 commits, with branch points in between
